@@ -279,8 +279,14 @@ def lean_node(case, node):
     return d
 
 
-def lean_request(case, op="run"):
-    return {"op": op, "nclasses": len(case["classes"]), "loads": [lean_node(case, n) for n in case["loads"]]}
+def lean_request(case, op="run", kw=None):
+    """`kw`: list of (rule, contained) for which the driver evaluates the constructor keyword filter"""
+    req = {"op": op, "nclasses": len(case["classes"]), "loads": [lean_node(case, n) for n in case["loads"]]}
+    if kw:
+        req["kw"] = [{"attrs": RULE_ATTRS[r], "assigned": RULE_ATTRS[r][:1], "contained": bool(c),
+                      "extras": ["_tx_filename", "_tx_metamodel", "_tx_model_params", "_tx_model_repository",
+                                 "_tx_reference_resolver", "_tx_parser", "_tx_loaded_models"]} for r, c in kw]
+    return req
 
 
 # --------------------------------------------------------------------------
@@ -526,7 +532,7 @@ class Runner:
 
     def on_init(self, obj, kw):
         rule = type(obj).__name__
-        raw = sorted((k, rawval(v)) for k, v in kw.items())
+        raw = [(k, rawval(v)) for k, v in kw.items()]
         ent = self.lookup_obj(kw.get("tag") if rule == "Import" else kw.get("name"))
         self.idmap[id(obj)] = ["obj", rule, ent[1]["lab"] if ent else -1]
         if ent is None:
@@ -963,3 +969,105 @@ def gen_case(rng, fault_index=None, multi=None):
         g.add_acts(case, root, 1, force_fail=(fault[0] == "act"))
     case["fault"] = list(fault)
     return case
+
+
+# --------------------------------------------------------------------------
+# shrinking
+# --------------------------------------------------------------------------
+def shrink_case(case):
+    """smaller variants of a case (still well-formed)"""
+    import copy
+
+    def variants():
+        # drop nested loads of one hook
+        for li, n0 in enumerate(case["loads"]):
+            for n in walk_nodes(n0):
+                for kind, h in all_hooks(n):
+                    if h["acts"]:
+                        yield ("acts", h["lab"])
+        # drop an import subtree nobody refers to, an object nobody refers to
+        for li, n0 in enumerate(case["loads"]):
+            for n in walk_nodes(n0):
+                for c in n["imports"]:
+                    yield ("import", n["pid"], c["pid"])
+                for o in walk_objs(n["objs"]):
+                    yield ("obj", n["pid"], o["lab"])
+        for cid, c in enumerate(case["classes"]):
+            if c["variant"] != "plain":
+                yield ("plain", cid)
+        for mi, mm in enumerate(case["mms"]):
+            for cid in mm["classes"]:
+                yield ("nocls", mi, cid)
+
+    def referenced(c2):
+        refs = set()
+        for n0 in c2["loads"]:
+            for n in walk_nodes(n0):
+                for o in walk_objs(n["objs"]):
+                    if o["k"] == "ref":
+                        refs.add(o["target"])
+                        refs.update(o["more"])
+        return refs
+
+    for v in variants():
+        c2 = copy.deepcopy(case)
+        ok = False
+        if v[0] == "acts":
+            for n0 in c2["loads"]:
+                for n in walk_nodes(n0):
+                    for kind, h in all_hooks(n):
+                        if h["lab"] == v[1] and h["acts"]:
+                            h["acts"] = []
+                            ok = True
+        elif v[0] == "import":
+            refs = referenced(c2)
+            for n0 in c2["loads"]:
+                for n in walk_nodes(n0):
+                    if n["pid"] != v[1]:
+                        continue
+                    child = next(c for c in n["imports"] if c["pid"] == v[2])
+                    gone = {x["pid"] for x in walk_nodes(child)}
+                    labs = {o["lab"] for x in walk_nodes(child) for o in walk_objs(x["objs"])}
+                    if labs & refs:
+                        continue
+                    back = [i for y in walk_nodes(n0) if y["pid"] not in gone for i in y["imp_objs"]
+                            if i.get("back") and i["to"] in gone]
+                    if back:
+                        continue
+                    n["imports"] = [c for c in n["imports"] if c["pid"] != v[2]]
+                    n["imp_objs"] = [i for i in n["imp_objs"] if i["to"] != v[2] or i.get("back")]
+                    ok = True
+        elif v[0] == "obj":
+            refs = referenced(c2)
+            if v[2] in refs:
+                continue
+            for n0 in c2["loads"]:
+                for n in walk_nodes(n0):
+                    if n["pid"] != v[1]:
+                        continue
+
+                    def drop(objs):
+                        out = []
+                        for o in objs:
+                            if o["lab"] == v[2]:
+                                if o["k"] == "box" and o["kids"]:
+                                    out.append(o)
+                                    continue
+                                nonlocal_ok[0] = True
+                                continue
+                            if o["k"] == "box":
+                                o["kids"] = drop(o["kids"])
+                            out.append(o)
+                        return out
+
+                    nonlocal_ok = [False]
+                    n["objs"] = drop(n["objs"])
+                    ok = ok or nonlocal_ok[0]
+        elif v[0] == "plain":
+            c2["classes"][v[1]]["variant"] = "plain"
+            ok = True
+        elif v[0] == "nocls":
+            c2["mms"][v[1]]["classes"] = [c for c in c2["mms"][v[1]]["classes"] if c != v[2]]
+            ok = True
+        if ok:
+            yield c2
